@@ -286,6 +286,10 @@ func runC11(c *Ctx) {
 	// ---- (8) SUBDIR-REMAP-TOTAL
 	c11SubdirRemap(c, pkFI)
 	c11ResolverKept(c, pkImg)
+	// an image file written over a longer one must be truncated; archive member names are validated before any
+	// component is stripped (shared with C07/C15 and C13)
+	ruleOpenTruncates(c, "OPEN-TRUNCATES")
+	c13UntrustedNames(c)
 
 	// ---- (9) shared rules on the code this property runs through: the image-level --path/--exclude-path filter must
 	// not depend on map iteration order (R-MAPORDER of C02, on package bufimage), and the image writer must report a
